@@ -830,7 +830,7 @@ func init() {
 	Register(&Engine{
 		Prop: "C08", Name: "capsim", Run: runC08,
 		Trials: map[string]int{"quick": 60000, "thorough": 600000},
-		Rule:   "a drawn helper (18 FS helpers, 10 file helpers) is called on a FaultFS exposing a drawn subset of exactly the interfaces its dispatch inspects (70 generated wrapper types over a real mem.FS or os.FS holding a fixture tree), and on a twin exposing all of them; in half of the trials one primitive call made by the fallback path (index 0..9, incl. file Read/Write/Close/Stat; a failing Write may accept a prefix first) is made to fail; judged: same outcome/data/tree as the twin or ErrNotImplemented with an unchanged tree; with a fault: nil result only if the work was really done; non-trivial = helper executed; distinct = event-log hash",
+		Rule:   "a drawn helper (18 FS helpers, 10 file helpers) is called on a FaultFS exposing a drawn subset of exactly the interfaces its dispatch inspects (70 generated wrapper types over a real mem.FS or os.FS holding a fixture tree), and on a twin exposing all of them; in half of the trials one primitive call made by the fallback path (index 0..9, incl. file Read/Write/Close/Stat; a failing Write may accept a prefix first) is made to fail; judged: same outcome/data/tree as the twin or ErrNotImplemented with an unchanged tree; with a fault: nil result only if the work was really done; non-trivial = helper executed; distinct = event-log hash Also: an os.FS view of a directory that has not been made (operand: the root); file helpers with a failing method, or a failing Stat in the refusal path, must not return nil nor a result next to a refusal; handles a helper leaves open count as final state.",
 		Components: map[string][]string{
 			"real": {"fs.go helpers and fallbacks", "file.go helpers", "mem.FS", "os.FS"},
 			"stub": {"capFS wrappers (generated capability masks + fault plan)"},
